@@ -6,7 +6,10 @@
     the source this run (`Extracted.Plugins`).  Quantifier: every list of configured plugins `specs` (built-in
     and custom, importable or not, constructible or not, active or not, any `order()` value: `None`, ints, bools and
     floats — every finite number, as the decimal `m / 10^e` it is (`Plugins.Num`), compared as Python compares numbers:
-    negative, fractional, ties such as 1 / 1.0 / True; `inf` and `nan` are outside the model —, raising, not a number).
+    negative, fractional, ties such as 1 / 1.0 / True; `inf`, `nan` and instances of int/float SUBCLASSES with their own
+    comparison are outside the model —; something falsy that is not a number ('' / [] / {}: counts as 0, because
+    `order() or 0` runs before the number test); raising; a truthy non-number).  The harness sends the EXACT value of a
+    float (`float.as_integer_ratio`), so a float beyond 2^53 is compared with an int as Python compares them.
   * "switched off by configuration": `Extracted.Plugins.isActive` is `Plugin.is_active` + `utils.str2bool` translated from
     the source this run, on the value `PLUGIN_<NAME>` has when it reaches `is_active` (text, Python bool/int, or None).
   * what the statement's "the agent still starts" and "the snapshot is still delivered" rest on: `c20_start_completes`
@@ -45,7 +48,7 @@ theorem c20_loaded (specs : List Spec) :
     ∀ k, (load specs).filter (fun s => s.key.eqv k) = (specs.filter Spec.loadable).filter (fun s => s.key.eqv k) :=
   ⟨sort_perm _, sort_sorted _, fun k => sort_stable k _⟩
 
-/-- **the order the plugins are compared by is the order of the numbers**: `Num.le` on `m / 10^e` is reflexive,
+/-- model lemma: **the order the plugins are compared by is the order of the numbers**: `Num.le` on `m / 10^e` is reflexive,
     total and transitive, agrees with `≤` of the integers on whole numbers, and does not depend on how many decimal
     places a number is written with (so 1, 1.0 and True are one position, and 1.2 < 1.5 < 2, -0.5 < 0). -/
 theorem c20_order_is_numeric :
@@ -122,7 +125,11 @@ theorem c20_switch_examples :
     Extracted.Plugins.isActive (some (.bool true)) = some true ∧ Extracted.Plugins.isActive (some (.text "YES")) = some true := by
   decide
 
-/-- a plugin whose `order()` cannot be used never makes the load fail (it is skipped: `c20_loaded_iff_spelled`). -/
+/-- a plugin whose `order()` cannot be used never makes the load fail (it is skipped: `c20_loaded_iff_spelled`).
+    Within the model's order values only (`Order`: raises / truthy non-number / falsy / a number of the EXACT types int,
+    bool, float): an `order()` returning an instance of an int SUBCLASS whose comparison raises passes the number test
+    and makes `list.sort` raise out of `load_plugins`, and `nan` leaves the list unsorted — both outside `Order`, not
+    generated (audit a3 P4; reported as a defect candidate of /repo). -/
 theorem c20_load_total (specs : List Spec) : loadRaises specs = false := by
   have hg : Extracted.Plugins.orderGuarded = true := by decide
   simp [loadRaises, hg]
